@@ -273,6 +273,9 @@ impl<'a> Exec<'a> {
 			("C14", format!("claimed-slots-leaked-by-crash:{class}"))
 		} else if self.leak_expected && (prop == "C14" || class == "entries-changed" || class == "entry-count") {
 			("C08", format!("tree-assembly-side-effect:{class}"))
+		} else if (self.cfg.scenario == "sizes" || self.cfg.scenario == "tree") && prop == "C14" {
+			// slot accounting / node ref counts are the storage clauses of C06 / C10 in their scenarios
+			(self.map_prop, format!("storage:{class}"))
 		} else if self.cfg.scenario == "reject" && prop == "C14" {
 			("C08", format!("slot-leaked:{class}"))
 		} else {
@@ -1270,7 +1273,8 @@ impl<'a> Exec<'a> {
 		self.stats.images_checked += 1;
 		self.live = dir.to_string();
 		simdisk::with(|d| d.set_root(dir));
-		let crash_prop = if power { "C12" } else { "C02" };
+		// clause ownership: in the I/O-error scenario the recovery clauses belong to C16
+		let crash_prop = if self.cfg.scenario == "ioerr" { "C16" } else if power { "C12" } else { "C02" };
 		let o = self.options_for(dir);
 		let db = match Db::open(&o) {
 			Ok(db) => db,
@@ -1325,7 +1329,7 @@ impl<'a> Exec<'a> {
 			},
 			Some(j) => {
 				if j < lo {
-					let p = if power { "C12" } else { "C03" };
+					let p = if self.cfg.scenario == "ioerr" { "C16" } else if power { "C12" } else { "C03" };
 					self.violation(
 						p,
 						"synced-commit-lost",
@@ -1860,7 +1864,7 @@ impl<'a> Exec<'a> {
 			Op::Drain => self.drain(),
 			Op::Crash { inner, plan } => self.crash(inner, plan),
 			Op::Iter(c, call) => self.iter_op(*c, *call),
-			Op::IoErr { inner, after, errno, tryio } => crate::faultops::ioerr(self, inner, *after, *errno, *tryio),
+			Op::IoErr { inner, after, errno, tryio, space_only } => crate::faultops::ioerr(self, inner, *after, *errno, *tryio, *space_only),
 			Op::StashLogs => crate::faultops::stash_logs(self),
 			Op::LogFuzz { muts, adopt } => crate::faultops::logfuzz(self, muts, *adopt),
 			Op::LockTree(c, k) => crate::treeops::lock_tree(self, *c, *k),
